@@ -655,8 +655,26 @@ def opinfo_s():
                      unique_by=lambda kv: kv[0])
     res = st.lists(G.type_s(1), max_size=2)
     o = st.tuples(attrs, props, res).map(lambda t: {"attrs": t[0], "props": t[1], "res": t[2]})
+    def tweak(t):
+        """b = a with exactly one component dropped or replaced."""
+        a, part, v, drop = t
+        b = {k: list(x) for k, x in a.items()}
+        if b[part]:
+            if drop:
+                b[part] = b[part][:-1]
+            elif part == "res":
+                b[part] = b[part][:-1] + [["i", 7, 2]]
+            else:
+                b[part] = b[part][:-1] + [[b[part][-1][0], v]]
+        elif part == "res":
+            b[part] = [["index"]]
+        else:
+            b[part] = [["prop1" if part == "props" else "a", v]]
+        return {"kind": "opinfo", "a": a, "b": b}
+
+    near = st.tuples(o, st.sampled_from(["attrs", "props", "res"]), val, st.booleans()).map(tweak)
     return st.one_of(
-        o.map(lambda x: {"kind": "opinfo", "a": x, "b": x}),
+        o.map(lambda x: {"kind": "opinfo", "a": x, "b": x}), near,
         st.tuples(o, o).map(lambda t: {"kind": "opinfo", "a": t[0], "b": t[1]}))
 
 
